@@ -6,7 +6,10 @@
      rsplit2_spec …          the "…#path#description" reading of a libid
      get_module_raw_in       distinct module names: every module is found under its name
      vba_project_no_fuel     the fuel of the dir-stream loops suffices on EVERY input
-     refuted_nameless_reference   witness of known class 1 *)
+     module_text_is_codepage_decoding   get_module = the project's decoder applied to the
+                             decompression of the module stream from its text offset
+     nameless_reference_reads   the witness of the former known class 1 (a REFERENCE without
+                             NameRecord), now read as MS-OVBA prescribes *)
 From Calamine Require Import Prelude Ovba Ovba_proofs OvbaDir.
 Open Scope N_scope.
 
@@ -108,27 +111,53 @@ Proof. reflexivity. Qed.
 Section DirProofs.
 Variable decode : N -> list N -> list N.
 
+Lemma le16_cons : forall x r, exists a b, le16 x ++ r = a :: b :: r /\ a + 256 * b = x.
+Proof.
+  intros x r. exists (x mod 256), (x / 256). split; [reflexivity|]. pose proof (N.div_mod x 256). lia.
+Qed.
+
 Lemma read_dir_information_enc : forall p tail,
-  valid_projb decode p = true ->
+  valid_projb p = true ->
   read_dir_information (enc_info p ++ tail) = Ok (p_codepage p, tail).
 Proof.
   intros p tail Hv. unfold valid_projb in Hv. split_valid Hv.
   unfold read_dir_information, enc_info. rewrite <- !app_assoc. adv. cbn [obind].
-  destruct (p_compat p) as [v|].
-  - rewrite <- !app_assoc. rewrite le16_read. cbn [obind]. eqb_closed. adv. cbn [obind]. adv. cbn [obind].
-    match goal with |- context [N.of_nat (length ?s) <? 8] =>
-      destruct (N.ltb_spec (N.of_nat (length s)) 8) as [Hl|_] end.
+  assert (Hcp : forall r, (if N.of_nat (length (le16 3 ++ le32 2 ++ le16 (p_codepage p) ++ r)) <? 8
+                           then Err E_IO
+                           else match skipn 6 (le16 3 ++ le32 2 ++ le16 (p_codepage p) ++ r) with
+                                | a :: b :: _ => Ok (a + 256 * b) | _ => Err E_IO end)
+                          = Ok (p_codepage p)).
+  { intro r.
+    destruct (N.ltb_spec (N.of_nat (length (le16 3 ++ le32 2 ++ le16 (p_codepage p) ++ r))) 8) as [Hl|_].
     { rewrite !app_length, !le16_length, !le32_length in Hl. lia. }
-    rewrite skipn_6, le16_read. cbn [obind]. match goal with H : cp_known _ = true |- _ => rewrite H end. cbn [negb]. adv. cbn [obind].
+    rewrite skipn_6. destruct (le16_cons (p_codepage p) r) as (a & b & -> & <-). reflexivity. }
+  destruct (p_compat p) as [v|].
+  - rewrite <- !app_assoc.
+    destruct (le16_cons 74 (le32 4 ++ le32 v ++ le16 2 ++ le32 4 ++ le32 (p_lcid p) ++ le16 20 ++ le32 4 ++
+                le32 (p_lcid_invoke p) ++ le16 3 ++ le32 2 ++ le16 (p_codepage p) ++
+                var_rec 4 (p_name p) ++ var_rec 5 (p_doc p) ++ var_rec 64 (p_doc_u p) ++
+                var_rec 6 (p_help1 p) ++ var_rec 61 (p_help2 p) ++ le16 7 ++ le32 4 ++ le32 (p_helpctx p) ++
+                le16 8 ++ le32 4 ++ le32 (p_libflags p) ++ le16 9 ++ le32 4 ++ le32 (p_vmajor p) ++
+                le16 (p_vminor p) ++ var_rec 12 (p_const p) ++ var_rec 60 (p_const_u p) ++ tail))
+      as (a & b & Eab & Hab).
+    rewrite Eab, Hab. eqb_closed. rewrite <- Eab. adv. cbn [obind]. adv. cbn [obind].
+    rewrite Hcp. cbn [obind].
+    match goal with H : cp_known _ = true |- _ => rewrite H end. cbn [negb]. adv. cbn [obind].
     repeat (rewrite check_variable_record_var_rec by assumption; cbn [obind]).
     adv. cbn [obind].
     repeat (rewrite check_variable_record_var_rec by assumption; cbn [obind]).
     reflexivity.
-  - cbn [app]. rewrite le16_read. cbn [obind]. eqb_closed. cbn [obind]. adv. cbn [obind].
-    match goal with |- context [N.of_nat (length ?s) <? 8] =>
-      destruct (N.ltb_spec (N.of_nat (length s)) 8) as [Hl|_] end.
-    { rewrite !app_length, !le16_length, !le32_length in Hl. lia. }
-    rewrite skipn_6, le16_read. cbn [obind]. match goal with H : cp_known _ = true |- _ => rewrite H end. cbn [negb]. adv. cbn [obind].
+  - cbn [app].
+    destruct (le16_cons 2 (le32 4 ++ le32 (p_lcid p) ++ le16 20 ++ le32 4 ++
+                le32 (p_lcid_invoke p) ++ le16 3 ++ le32 2 ++ le16 (p_codepage p) ++
+                var_rec 4 (p_name p) ++ var_rec 5 (p_doc p) ++ var_rec 64 (p_doc_u p) ++
+                var_rec 6 (p_help1 p) ++ var_rec 61 (p_help2 p) ++ le16 7 ++ le32 4 ++ le32 (p_helpctx p) ++
+                le16 8 ++ le32 4 ++ le32 (p_libflags p) ++ le16 9 ++ le32 4 ++ le32 (p_vmajor p) ++
+                le16 (p_vminor p) ++ var_rec 12 (p_const p) ++ var_rec 60 (p_const_u p) ++ tail))
+      as (a & b & Eab & Hab).
+    rewrite Eab, Hab. eqb_closed. rewrite <- Eab. cbn [obind]. adv. cbn [obind].
+    rewrite Hcp. cbn [obind].
+    match goal with H : cp_known _ = true |- _ => rewrite H end. cbn [negb]. adv. cbn [obind].
     repeat (rewrite check_variable_record_var_rec by assumption; cbn [obind]).
     adv. cbn [obind].
     repeat (rewrite check_variable_record_var_rec by assumption; cbn [obind]).
@@ -173,53 +202,78 @@ Proof.
 Qed.
 
 (* the name record of a reference *)
-Lemma ref_step_name : forall cp refs cur name nameu rest,
+Lemma ref_step_name : forall cp refs cur complete name nameu rest,
   lenb name = true -> lenb nameu = true ->
-  ref_step decode cp (refs, cur, var_rec 0x0016 name ++ var_rec 0x003E nameu ++ rest)
-  = Ok (Continue (push_named refs cur, mkref (decode cp name) (decode cp name) [], rest)).
+  ref_step decode cp (refs, cur, complete, var_rec 0x0016 name ++ var_rec 0x003E nameu ++ rest)
+  = Ok (Continue (push_ref refs cur complete, mkref (decode cp name) (decode cp name) [], false, rest)).
 Proof.
-  intros cp refs cur name nameu rest H1 H2. unfold ref_step, var_rec at 1. rewrite <- !app_assoc.
-  rewrite rd_u16_le16. cbn [obind]. eqb_closed.
+  intros cp refs cur complete name nameu rest H1 H2. unfold ref_step, var_rec at 1. rewrite <- !app_assoc.
+  rewrite rd_u16_le16. cbn [obind]. unfold start_nameless.
+  change (is_ref_record 22) with false. rewrite andb_false_r. eqb_closed.
   rewrite read_variable_record_flat by exact H1. cbn [obind].
   rewrite check_variable_record_var_rec by exact H2. reflexivity.
 Qed.
 
-Lemma ref_step_original : forall cp refs cur o rest cur',
-  lenb o = true -> libid_effect decode cp cur o = Some cur' ->
-  ref_step decode cp (refs, cur, le16 0x0033 ++ sized o ++ rest) = Ok (Continue (refs, cur', rest)).
+(* the state in which a reference record finds the loop: after a complete reference a new,
+   nameless one is started *)
+Definition begin_ref (refs : list reference) (cur : reference) (complete : bool)
+  : list reference * reference :=
+  if complete then (refs ++ [cur], empty_ref) else (refs, cur).
+
+Lemma start_nameless_ref_record : forall check refs cur complete,
+  is_ref_record check = true ->
+  start_nameless check (refs, cur, complete)
+  = (fst (begin_ref refs cur complete), snd (begin_ref refs cur complete), false).
 Proof.
-  intros cp refs cur o rest cur' H E. unfold ref_step. rewrite rd_u16_le16. cbn [obind]. eqb_closed.
+  intros check refs cur complete H. unfold start_nameless, begin_ref. rewrite H, andb_true_r.
+  destruct complete; reflexivity.
+Qed.
+
+Lemma ref_step_original : forall cp refs cur complete o rest cur',
+  lenb o = true -> libid_effect decode cp (snd (begin_ref refs cur complete)) o = Some cur' ->
+  ref_step decode cp (refs, cur, complete, le16 0x0033 ++ sized o ++ rest)
+  = Ok (Continue (fst (begin_ref refs cur complete), cur', false, rest)).
+Proof.
+  intros cp refs cur complete o rest cur' H E. unfold ref_step. rewrite rd_u16_le16. cbn [obind].
+  rewrite start_nameless_ref_record by reflexivity. eqb_closed.
   rewrite set_libid_sized by exact H. rewrite E. reflexivity.
 Qed.
 
-Lemma ref_step_registered : forall cp refs cur libid rest cur',
-  lenb libid = true -> libid_effect decode cp cur libid = Some cur' ->
-  ref_step decode cp (refs, cur, enc_ref_kind (RRegistered libid) ++ rest)
-  = Ok (Continue (refs, cur', rest)).
+Lemma ref_step_registered : forall cp refs cur complete libid rest cur',
+  lenb libid = true -> libid_effect decode cp (snd (begin_ref refs cur complete)) libid = Some cur' ->
+  ref_step decode cp (refs, cur, complete, enc_ref_kind (RRegistered libid) ++ rest)
+  = Ok (Continue (fst (begin_ref refs cur complete), cur', true, rest)).
 Proof.
-  intros cp refs cur libid rest cur' H E. unfold ref_step, enc_ref_kind. rewrite <- !app_assoc.
-  rewrite rd_u16_le16. cbn [obind]. eqb_closed. adv. cbn [obind].
+  intros cp refs cur complete libid rest cur' H E. unfold ref_step, enc_ref_kind. rewrite <- !app_assoc.
+  rewrite rd_u16_le16. cbn [obind]. rewrite start_nameless_ref_record by reflexivity. eqb_closed.
+  adv. cbn [obind].
   rewrite set_libid_sized by exact H. rewrite E. cbn [obind]. adv. reflexivity.
 Qed.
 
-Lemma ref_step_project : forall cp refs cur la lr major minor rest,
+Lemma ref_step_project : forall cp refs cur complete la lr major minor rest,
   lenb la = true -> lenb lr = true ->
-  ref_step decode cp (refs, cur, enc_ref_kind (RProject la lr major minor) ++ rest)
-  = Ok (Continue (refs, mkref (r_name cur) (r_desc cur) (strip_c (decode cp la)), rest)).
+  ref_step decode cp (refs, cur, complete, enc_ref_kind (RProject la lr major minor) ++ rest)
+  = Ok (Continue (fst (begin_ref refs cur complete),
+                  mkref (r_name (snd (begin_ref refs cur complete)))
+                        (r_desc (snd (begin_ref refs cur complete))) (strip_c (decode cp la)),
+                  true, rest)).
 Proof.
-  intros cp refs cur la lr major minor rest H1 H2. unfold ref_step, enc_ref_kind. rewrite <- !app_assoc.
-  rewrite rd_u16_le16. cbn [obind]. eqb_closed. adv. cbn [obind].
+  intros cp refs cur complete la lr major minor rest H1 H2. unfold ref_step, enc_ref_kind.
+  rewrite <- !app_assoc.
+  rewrite rd_u16_le16. cbn [obind]. rewrite start_nameless_ref_record by reflexivity. eqb_closed.
+  adv. cbn [obind].
   unfold sized. rewrite <- !app_assoc.
   rewrite read_variable_record_flat by exact H1. cbn [obind].
   rewrite read_variable_record_flat by exact H2. cbn [obind]. adv. reflexivity.
 Qed.
 
-Lemma ref_step_control : forall cp refs cur tw next lext guid cookie rest cur1 cur2,
+Lemma ref_step_control : forall cp refs cur complete tw next lext guid cookie rest cur1 cur2,
   lenb tw = true ->
   match next with Some (n, nu) => lenb n && lenb nu | None => true end = true ->
   lenb lext = true -> N.of_nat (length guid) = 16 ->
-  libid_effect decode cp cur tw = Some cur1 -> libid_effect decode cp cur1 lext = Some cur2 ->
-  ref_step decode cp (refs, cur,
+  libid_effect decode cp (snd (begin_ref refs cur complete)) tw = Some cur1 ->
+  libid_effect decode cp cur1 lext = Some cur2 ->
+  ref_step decode cp (refs, cur, complete,
      le16 0x002F ++ le32 (N.of_nat (length tw) + 10) ++ sized tw ++ le32 0 ++ le16 0 ++
      (match next with
       | Some (n, nu) => var_rec 0x0016 n ++ var_rec 0x003E nu
@@ -227,10 +281,11 @@ Lemma ref_step_control : forall cp refs cur tw next lext guid cookie rest cur1 c
       end) ++
      le16 0x0030 ++ le32 (N.of_nat (length lext) + 30) ++ sized lext ++ le32 0 ++ le16 0 ++
      guid ++ le32 cookie ++ rest)
-  = Ok (Continue (refs, cur2, rest)).
+  = Ok (Continue (fst (begin_ref refs cur complete), cur2, true, rest)).
 Proof.
-  intros cp refs cur tw next lext guid cookie rest cur1 cur2 H1 H2 H3 H4 E1 E2.
-  unfold ref_step. rewrite rd_u16_le16. cbn [obind]. eqb_closed. adv. cbn [obind].
+  intros cp refs cur complete tw next lext guid cookie rest cur1 cur2 H1 H2 H3 H4 E1 E2.
+  unfold ref_step. rewrite rd_u16_le16. cbn [obind].
+  rewrite start_nameless_ref_record by reflexivity. eqb_closed. adv. cbn [obind].
   rewrite set_libid_sized by exact H1. rewrite E1. cbn [obind]. adv. cbn [obind].
   assert (Htail : forall s, advance 26 (le32 0 ++ le16 0 ++ guid ++ le32 cookie ++ s) = Ok s).
   { intro s. adv. rewrite (app_assoc guid). apply advance_bytes.
@@ -246,32 +301,33 @@ Proof.
     rewrite set_libid_sized by exact H3. rewrite E2. cbn [obind]. rewrite Htail. reflexivity.
 Qed.
 
-(* one whole reference: at most three iterations *)
 Ltac and_split H H1 H2 := apply andb_true_iff in H; destruct H as [H1 H2].
 
-Lemma refs_loop_ref : forall cp r refs cur rest r',
-  rs_named r = true ->
-  valid_refb decode cp r = true -> expected_ref decode cp r = Some r' ->
-  exists k, (k <= 3)%nat /\ forall f,
-    refs_loop decode (k + f) cp (refs, cur, enc_ref r ++ rest)
-    = refs_loop decode f cp (push_named refs cur, r', rest).
+(* the reference record(s) of one REFERENCE, met in a state whose current reference is [r0]
+   once a pending complete reference has been pushed: at most two iterations *)
+Lemma refs_loop_kind : forall cp kind refs cur complete rest r0 r',
+  snd (begin_ref refs cur complete) = r0 ->
+  valid_ref_kindb kind = true ->
+  match kind with
+  | RRegistered libid => libid_effect decode cp r0 libid
+  | RProject la _ _ _ => Some (mkref (r_name r0) (r_desc r0) (strip_c (decode cp la)))
+  | RControl orig tw _ lext _ _ =>
+    opt_bind (match orig with Some o => libid_effect decode cp r0 o | None => Some r0 end) (fun r1 =>
+    opt_bind (libid_effect decode cp r1 tw) (fun r2 => libid_effect decode cp r2 lext))
+  end = Some r' ->
+  exists k, (k <= 2)%nat /\ forall f,
+    refs_loop decode (k + f) cp (refs, cur, complete, enc_ref_kind kind ++ rest)
+    = refs_loop decode f cp (fst (begin_ref refs cur complete), r', true, rest).
 Proof.
-  intros cp [named name nameu kind] refs cur rest r' Hnamed Hv He. cbn [rs_named] in Hnamed. subst named.
-  unfold valid_refb in Hv. cbn [rs_named rs_name rs_name_u rs_kind] in Hv.
-  and_split Hv Hv Hk. and_split Hv Hv Hne. and_split Hv Hn Hnu.
-  unfold expected_ref in He. cbn [rs_named rs_name rs_kind] in He.
-  unfold enc_ref. cbn [rs_named rs_name rs_name_u rs_kind]. rewrite <- !app_assoc.
-  set (r0 := mkref (decode cp name) (decode cp name) []) in *.
-  pose proof (fun rest => ref_step_name cp refs cur name nameu rest Hn Hnu) as Hname.
+  intros cp kind refs cur complete rest r0 r' H0 Hk He.
   destruct kind as [libid | la lr major minor | orig tw next lext guid cookie];
     cbn [valid_ref_kindb] in Hk.
-  - exists 2%nat. split; [lia|]. intro f. cbn [Nat.add].
-    rewrite (refs_loop_continue _ _ _ _ (Hname _)).
-    rewrite (refs_loop_continue _ _ _ _ (ref_step_registered cp _ r0 libid rest r' Hk He)). reflexivity.
+  - exists 1%nat. split; [lia|]. intro f. cbn [Nat.add]. subst r0.
+    rewrite (refs_loop_continue _ _ _ _ (ref_step_registered cp refs cur complete libid rest r' Hk He)).
+    reflexivity.
   - and_split Hk Hk Hmin. and_split Hk Hk Hmaj. and_split Hk Hla Hlr.
-    exists 2%nat. split; [lia|]. intro f. cbn [Nat.add].
-    rewrite (refs_loop_continue _ _ _ _ (Hname _)).
-    rewrite (refs_loop_continue _ _ _ _ (ref_step_project cp _ r0 la lr major minor rest Hla Hlr)).
+    exists 1%nat. split; [lia|]. intro f. cbn [Nat.add]. subst r0.
+    rewrite (refs_loop_continue _ _ _ _ (ref_step_project cp refs cur complete la lr major minor rest Hla Hlr)).
     injection He as <-. reflexivity.
   - and_split Hk Hk Hcookie. and_split Hk Hk Hguid. and_split Hk Hk Hlext. and_split Hk Hk Hnext.
     and_split Hk Horig Htw. apply N.eqb_eq in Hguid.
@@ -279,63 +335,84 @@ Proof.
     destruct orig as [o|].
     + destruct (libid_effect decode cp r0 o) as [r1|] eqn:E0; cbn [opt_bind] in He; [|discriminate].
       destruct (libid_effect decode cp r1 tw) as [r2|] eqn:E1; cbn [opt_bind] in He; [|discriminate].
-      exists 3%nat. split; [lia|]. intro f. cbn [Nat.add].
-      rewrite (refs_loop_continue _ _ _ _ (Hname _)).
+      exists 2%nat. split; [lia|]. intro f. cbn [Nat.add]. subst r0.
       rewrite <- !app_assoc.
-      rewrite (refs_loop_continue _ _ _ _ (ref_step_original cp _ r0 o _ r1 Horig E0)).
+      rewrite (refs_loop_continue _ _ _ _ (ref_step_original cp refs cur complete o _ r1 Horig E0)).
       rewrite (refs_loop_continue _ _ _ _
-                 (ref_step_control cp _ r1 tw next lext guid cookie rest r2 r' Htw Hnext Hlext Hguid E1 He)).
+                 (ref_step_control cp _ r1 false tw next lext guid cookie rest r2 r' Htw Hnext Hlext Hguid E1 He)).
       reflexivity.
     + cbn [opt_bind] in He.
       destruct (libid_effect decode cp r0 tw) as [r2|] eqn:E1; cbn [opt_bind] in He; [|discriminate].
-      exists 2%nat. split; [lia|]. intro f. cbn [Nat.add app].
-      rewrite (refs_loop_continue _ _ _ _ (Hname _)).
+      exists 1%nat. split; [lia|]. intro f. cbn [Nat.add app]. subst r0.
       rewrite (refs_loop_continue _ _ _ _
-                 (ref_step_control cp _ r0 tw next lext guid cookie rest r2 r' Htw Hnext Hlext Hguid E1 He)).
+                 (ref_step_control cp refs cur complete tw next lext guid cookie rest r2 r' Htw Hnext Hlext Hguid E1 He)).
       reflexivity.
 Qed.
 
-Lemma expected_ref_name : forall cp r r', rs_named r = true ->
-  expected_ref decode cp r = Some r' -> r_name r' = decode cp (rs_name r).
+(* the loop state between two REFERENCEs: the current reference is complete, or nothing has
+   been read yet *)
+Definition between_refs (cur : reference) (complete : bool) : Prop :=
+  complete = true \/ cur = empty_ref.
+
+(* one whole reference, with or without its NameRecord: at most three iterations *)
+Lemma refs_loop_ref : forall cp r refs cur complete rest r',
+  between_refs cur complete ->
+  valid_refb r = true -> expected_ref decode cp r = Some r' ->
+  exists k, (k <= 3)%nat /\ forall f,
+    refs_loop decode (k + f) cp (refs, cur, complete, enc_ref r ++ rest)
+    = refs_loop decode f cp (push_ref refs cur complete, r', true, rest).
 Proof.
-  intros cp [named name nameu kind] r' Hn H. cbn [rs_named] in Hn. subst named.
-  unfold expected_ref in H. cbn [rs_named rs_name rs_kind] in *.
-  destruct kind as [libid | la lr major minor | orig tw next lext guid cookie].
-  - apply libid_effect_name in H. exact H.
-  - injection H as <-. reflexivity.
-  - destruct orig as [o|].
-    + destruct (libid_effect decode cp _ o) as [r1|] eqn:E0; cbn [opt_bind] in H; [|discriminate].
-      destruct (libid_effect decode cp r1 tw) as [r2|] eqn:E1; cbn [opt_bind] in H; [|discriminate].
-      apply libid_effect_name in H, E1, E0. cbn [r_name] in *. congruence.
-    + cbn [opt_bind] in H.
-      destruct (libid_effect decode cp _ tw) as [r2|] eqn:E1; cbn [opt_bind] in H; [|discriminate].
-      apply libid_effect_name in H, E1. cbn [r_name] in *. congruence.
+  intros cp [named name nameu kind] refs cur complete rest r' Hst Hv He.
+  unfold valid_refb in Hv. cbn [rs_named rs_name rs_name_u rs_kind] in Hv.
+  and_split Hv Hv Hk.
+  unfold expected_ref in He. cbn [rs_named rs_name rs_kind] in He.
+  unfold enc_ref. cbn [rs_named rs_name rs_name_u rs_kind].
+  destruct named.
+  - (* NameRecord, then the reference record(s) in a state that is not complete *)
+    and_split Hv Hn Hnu. rewrite <- !app_assoc.
+    set (r0 := mkref (decode cp name) (decode cp name) []) in *.
+    destruct (refs_loop_kind cp kind (push_ref refs cur complete) r0 false rest r0 r' eq_refl Hk)
+      as (k & Hk2 & Hrun).
+    { destruct kind; exact He. }
+    exists (S k). split; [lia|]. intro f. cbn [Nat.add].
+    rewrite (refs_loop_continue _ _ _ _ (ref_step_name cp refs cur complete name nameu _ Hn Hnu)).
+    fold r0. rewrite Hrun. reflexivity.
+  - (* no NameRecord: the reference record itself starts the reference *)
+    cbn [app].
+    assert (Hb : begin_ref refs cur complete = (push_ref refs cur complete, empty_ref)).
+    { unfold begin_ref, push_ref. destruct Hst as [->| ->]; [reflexivity|].
+      destruct complete; reflexivity. }
+    destruct (refs_loop_kind cp kind refs cur complete rest empty_ref r') as (k & Hk2 & Hrun).
+    { rewrite Hb. reflexivity. }
+    { exact Hk. }
+    { destruct kind; exact He. }
+    exists k. split; [lia|]. intro f. rewrite Hrun, Hb. reflexivity.
 Qed.
 
-Lemma refs_loop_all : forall cp rs acc cur rest expected,
-  forallb rs_named rs = true ->
-  forallb (valid_refb decode cp) rs = true -> expected_refs decode cp rs = Some expected ->
+Lemma refs_loop_all : forall cp rs acc cur complete rest expected,
+  between_refs cur complete ->
+  forallb valid_refb rs = true -> expected_refs decode cp rs = Some expected ->
   exists f, (f <= 3 * length rs + 1)%nat /\
-    refs_loop decode f cp (acc, cur, concat (map enc_ref rs) ++ le16 0x000F ++ rest)
-    = Ok (push_named acc cur ++ expected, rest).
+    refs_loop decode f cp (acc, cur, complete, concat (map enc_ref rs) ++ le16 0x000F ++ rest)
+    = Ok (push_ref acc cur complete ++ expected, rest).
 Proof.
-  intros cp rs. induction rs as [|r rs IH]; intros acc cur rest expected Hnm Hv He.
+  intros cp rs. induction rs as [|r rs IH]; intros acc cur complete rest expected Hst Hv He.
   - exists 1%nat. split; [cbn; lia|]. cbn [map concat app refs_loop ref_step] .
-    rewrite rd_u16_le16. cbn [obind]. eqb_closed. cbn [expected_refs] in He. injection He as <-.
+    rewrite rd_u16_le16. cbn [obind]. unfold start_nameless.
+    change (is_ref_record 15) with false. rewrite andb_false_r. eqb_closed.
+    cbn [expected_refs] in He. injection He as <-.
     rewrite app_nil_r. reflexivity.
-  - cbn [forallb] in Hv, Hnm. and_split Hv Hr Hrs. and_split Hnm Hnr Hnrs. cbn [expected_refs] in He.
+  - cbn [forallb] in Hv. and_split Hv Hr Hrs. cbn [expected_refs] in He.
     destruct (expected_ref decode cp r) as [r'|] eqn:Er; cbn [opt_bind] in He; [|discriminate].
     destruct (expected_refs decode cp rs) as [tl|] eqn:Etl; cbn [opt_bind] in He; [|discriminate].
     injection He as <-.
-    destruct (refs_loop_ref cp r acc cur (concat (map enc_ref rs) ++ le16 15 ++ rest) r' Hnr Hr Er)
+    destruct (refs_loop_ref cp r acc cur complete (concat (map enc_ref rs) ++ le16 15 ++ rest) r' Hst Hr Er)
       as (k & Hk & Hstep).
-    destruct (IH (push_named acc cur) r' rest tl Hnrs Hrs eq_refl) as (f & Hf & Hrun).
+    destruct (IH (push_ref acc cur complete) r' true rest tl (or_introl eq_refl) Hrs eq_refl)
+      as (f & Hf & Hrun).
     exists (k + f)%nat. split; [cbn [length]; lia|].
     cbn [map concat]. rewrite <- app_assoc. rewrite Hstep, Hrun. do 2 f_equal.
-    unfold push_named at 1. rewrite (expected_ref_name cp r r' Hnr Er).
-    unfold valid_refb in Hr. rewrite Hnr in Hr. and_split Hr Hr Hk'. and_split Hr Hr Hne.
-    destruct (is_empty (decode cp (rs_name r))); [discriminate|].
-    rewrite <- app_assoc. reflexivity.
+    unfold push_ref at 1. cbn [orb]. rewrite <- app_assoc. reflexivity.
 Qed.
 
 Lemma var_rec_length : forall id b, length (var_rec id b) = (6 + length b)%nat.
@@ -354,13 +431,14 @@ Proof.
 Qed.
 
 Lemma references_enc : forall cp rs rest expected,
-  forallb rs_named rs = true ->
-  forallb (valid_refb decode cp) rs = true -> expected_refs decode cp rs = Some expected ->
+  forallb valid_refb rs = true -> expected_refs decode cp rs = Some expected ->
   references_from_stream decode cp (concat (map enc_ref rs) ++ le16 0x000F ++ rest)
   = Ok (expected, rest).
 Proof.
-  intros cp rs rest expected Hnm Hv He. unfold references_from_stream.
-  destruct (refs_loop_all cp rs [] empty_ref rest expected Hnm Hv He) as (f & Hf & Hrun).
+  intros cp rs rest expected Hv He. unfold references_from_stream.
+  destruct (refs_loop_all cp rs [] empty_ref false rest expected (or_intror eq_refl) Hv He)
+    as (f & Hf & Hrun).
+  change (push_ref [] empty_ref false) with (@nil reference) in Hrun. cbn [app] in Hrun.
   apply (refs_loop_mono f); [|exact Hrun].
   rewrite !app_length, le16_length. pose proof (enc_refs_length rs). lia.
 Qed.
@@ -422,18 +500,16 @@ Qed.
 
 (* ---------- the dir stream ---------- *)
 Theorem dir_roundtrip : forall p refs,
-  valid_projb decode p = true -> known_C18_dir p = None ->
+  valid_projb p = true ->
   expected_refs decode (p_codepage p) (p_refs p) = Some refs ->
   parse_dir decode (encode_dir p)
   = Ok (p_codepage p, refs, map (expected_mod decode (p_codepage p)) (p_mods p)).
 Proof.
-  intros p refs Hv Hk He. unfold parse_dir, encode_dir.
-  assert (Hnm : forallb rs_named (p_refs p) = true).
-  { unfold known_C18_dir in Hk. destruct (forallb rs_named (p_refs p)); [reflexivity|discriminate]. }
+  intros p refs Hv He. unfold parse_dir, encode_dir.
   rewrite read_dir_information_enc by exact Hv. cbn [obind].
   unfold valid_projb in Hv.
   and_split Hv Hv Hcookie. and_split Hv Hv Hcount. and_split Hv Hv Hmods. and_split Hv Hv Hrefs.
-  rewrite (references_enc _ _ _ refs Hnm Hrefs He). cbn [obind].
+  rewrite (references_enc _ _ _ refs Hrefs He). cbn [obind].
   rewrite read_modules_enc; [reflexivity|exact Hmods|apply N.ltb_lt, Hcount].
 Qed.
 
@@ -478,7 +554,7 @@ Proof.
 Qed.
 
 Theorem vba_project_roundtrip : forall p dir_chunks mbs refs,
-  valid_projb decode p = true -> known_C18_dir p = None ->
+  valid_projb p = true ->
   expected_refs decode (p_codepage p) (p_refs p) = Some refs ->
   Forall valid_chunk dir_chunks -> known_C18 dir_chunks = None ->
   sem dir_chunks = encode_dir p ->
@@ -489,11 +565,11 @@ Theorem vba_project_roundtrip : forall p dir_chunks mbs refs,
   = Ok (mkproject (p_codepage p) refs
           (map (fun mb => (decode (p_codepage p) (ms_name (fst mb)), sem (mb_chunks (snd mb)))) mbs)).
 Proof.
-  intros p dir_chunks mbs refs Hv Hkd He Hdc Hk Hsem Hmods Hbodies Hnd.
+  intros p dir_chunks mbs refs Hv He Hdc Hk Hsem Hmods Hbodies Hnd.
   unfold vba_project. unfold project_streams at 1. cbn [get_stream].
   assert (Hd : list_eqb DIR_NAME DIR_NAME = true) by reflexivity. rewrite Hd. cbn [obind].
   rewrite decompress_encode by assumption. cbn [obind]. fold (sem dir_chunks). rewrite Hsem.
-  rewrite (dir_roundtrip p refs Hv Hkd He). cbn [obind].
+  rewrite (dir_roundtrip p refs Hv He). cbn [obind].
   rewrite Hmods, map_map.
   rewrite (read_all_modules_enc (p_codepage p) _ mbs Hnd).
   - reflexivity.
@@ -524,6 +600,121 @@ Proof.
     + exfalso. apply Hnotin. apply (get_module_raw_some_in ms n c''), E.
     + assert (list_eqb n n = true) as -> by (apply list_eqb_eq; reflexivity). reflexivity.
   - rewrite (IH n c Hnd' Hin). reflexivity.
+Qed.
+
+(* ---------- get_module: the text of a module ---------- *)
+Lemma get_module_raw_some_entry : forall ms n c, get_module_raw ms n = Some c -> In (n, c) ms.
+Proof.
+  induction ms as [|[a b] ms IH]; intros n c E; [discriminate|].
+  cbn [get_module_raw] in E.
+  destruct (get_module_raw ms n) as [c'|] eqn:E'.
+  - injection E as <-. right. apply IH, E'.
+  - destruct (list_eqb a n) eqn:Ea; [|discriminate]. apply list_eqb_eq in Ea.
+    injection E as <-. left. congruence.
+Qed.
+
+Lemma read_all_modules_sound : forall streams mods ms,
+  read_all_modules streams mods = Ok ms ->
+  forall n c, In (n, c) ms ->
+  exists m s, In m mods /\ m_name m = n /\ get_stream streams (m_stream m) = Ok s /\
+              module_content s (m_offset m) = Ok c.
+Proof.
+  intros streams. induction mods as [|m mods IH]; intros ms H n c Hin.
+  - cbn [read_all_modules] in H. injection H as <-. contradiction.
+  - cbn [read_all_modules] in H.
+    destruct (get_stream streams (m_stream m)) as [s|e| |] eqn:Es; cbn [obind] in H; try discriminate.
+    destruct (module_content s (m_offset m)) as [c0|e| |] eqn:Ec; cbn [obind] in H; try discriminate.
+    destruct (read_all_modules streams mods) as [tl|e| |] eqn:Et; cbn [obind] in H; try discriminate.
+    injection H as <-. destruct Hin as [Hin|Hin].
+    + injection Hin as <- <-. exists m, s. repeat split; auto. left; reflexivity.
+    + destruct (IH tl eq_refl n c Hin) as (m' & s' & Hm & Hn & Hs & Hc).
+      exists m', s'. repeat split; auto. right; exact Hm.
+Qed.
+
+Lemma parse_dir_codepage : forall d cp refs mods,
+  parse_dir decode d = Ok (cp, refs, mods) ->
+  exists rest, read_dir_information d = Ok (cp, rest).
+Proof.
+  intros d cp refs mods H. unfold parse_dir in H.
+  destruct (read_dir_information d) as [[cp' s1]|e| |]; cbn [obind] in H; try discriminate.
+  destruct (references_from_stream decode cp' s1) as [[refs' s2]|e| |]; cbn [obind] in H; try discriminate.
+  destruct (read_modules decode cp' s2) as [[mods' s3]|e| |]; cbn [obind] in H; try discriminate.
+  injection H as -> _ _. exists s1. reflexivity.
+Qed.
+
+Lemma module_content_inv : forall s off raw, module_content s off = Ok raw ->
+  off <= N.of_nat (length s) /\ decompress (skipn (N.to_nat off) s) = Ok raw.
+Proof.
+  intros s off raw H. unfold module_content in H.
+  destruct (N.ltb_spec (N.of_nat (length s)) off) as [Hlt|Hge]; [discriminate|]. split; [lia|exact H].
+Qed.
+
+(* On EVERY container the project reader accepts, whatever text get_module returns for a name
+   is the project's code-page decoder — the decoder of the code page read from the
+   PROJECTCODEPAGE record of the dir stream — applied to exactly the bytes obtained by
+   decompressing the stream that the dir stream records for a module of that name, from the
+   text offset recorded there (the offset is applied to the compressed stream, before
+   decompression); these bytes are what get_module_raw returns.  No shortcut on the bytes
+   (e.g. "already valid UTF-8") is possible: [decode] is arbitrary. *)
+Theorem module_text_is_codepage_decoding : forall streams pj name text,
+  vba_project decode streams = Ok pj ->
+  get_module decode pj name = Some text ->
+  exists dir d rest refs mods stream_name off s raw,
+    get_stream streams DIR_NAME = Ok dir /\ decompress dir = Ok d /\
+    read_dir_information d = Ok (pj_codepage pj, rest) /\
+    parse_dir decode d = Ok (pj_codepage pj, refs, mods) /\
+    In (mkmod name stream_name off) mods /\
+    get_stream streams stream_name = Ok s /\ off <= N.of_nat (length s) /\
+    decompress (skipn (N.to_nat off) s) = Ok raw /\
+    get_module_raw (pj_modules pj) name = Some raw /\
+    text = decode (pj_codepage pj) raw.
+Proof.
+  intros streams pj name text Hp Hg. unfold vba_project in Hp.
+  destruct (get_stream streams DIR_NAME) as [dir|e| |] eqn:Edir; cbn [obind] in Hp; try discriminate.
+  destruct (decompress dir) as [d|e| |] eqn:Ed; cbn [obind] in Hp; try discriminate.
+  destruct (parse_dir decode d) as [[[cp refs] mods]|e| |] eqn:Epd; cbn [obind] in Hp; try discriminate.
+  destruct (read_all_modules streams mods) as [ms|e| |] eqn:Ems; cbn [obind] in Hp; try discriminate.
+  injection Hp as <-. cbn [pj_codepage pj_modules] in *.
+  unfold get_module in Hg. cbn [pj_codepage pj_modules] in Hg.
+  destruct (get_module_raw ms name) as [raw|] eqn:Eraw; cbn [option_map] in Hg; [|discriminate].
+  injection Hg as <-.
+  destruct (read_all_modules_sound _ _ _ Ems name raw (get_module_raw_some_entry _ _ _ Eraw))
+    as (m & s & Hin & Hname & Hs & Hc).
+  destruct (parse_dir_codepage _ _ _ _ Epd) as (rest & Hinfo).
+  destruct (module_content_inv _ _ _ Hc) as (Hoff & Hdec).
+  exists dir, d, rest, refs, mods, (m_stream m), (m_offset m), s, raw.
+  repeat split; auto. destruct m as [n sn off]. cbn [m_name] in Hname. subst n. exact Hin.
+Qed.
+
+(* … and on the containers of [vba_project_roundtrip] every module is found under its decoded
+   name and its text is the decoding of exactly the bytes its tokens mean *)
+Theorem module_text_roundtrip : forall p dir_chunks mbs refs mb,
+  valid_projb p = true ->
+  expected_refs decode (p_codepage p) (p_refs p) = Some refs ->
+  Forall valid_chunk dir_chunks -> known_C18 dir_chunks = None ->
+  sem dir_chunks = encode_dir p ->
+  p_mods p = map fst mbs ->
+  Forall body_ok mbs ->
+  NoDup (map fst (project_streams decode p dir_chunks mbs)) ->
+  NoDup (map (fun mb => decode (p_codepage p) (ms_name (fst mb))) mbs) ->
+  In mb mbs ->
+  exists pj,
+    vba_project decode (project_streams decode p dir_chunks mbs) = Ok pj /\
+    get_module_raw (pj_modules pj) (decode (p_codepage p) (ms_name (fst mb)))
+    = Some (sem (mb_chunks (snd mb))) /\
+    get_module decode pj (decode (p_codepage p) (ms_name (fst mb)))
+    = Some (decode (p_codepage p) (sem (mb_chunks (snd mb)))).
+Proof.
+  intros p dir_chunks mbs refs mb Hv He Hdc Hk Hsem Hmods Hbodies Hnd Hnames Hin.
+  eexists. split; [apply (vba_project_roundtrip p dir_chunks mbs refs); assumption|].
+  assert (Hraw : get_module_raw
+            (map (fun mb => (decode (p_codepage p) (ms_name (fst mb)), sem (mb_chunks (snd mb)))) mbs)
+            (decode (p_codepage p) (ms_name (fst mb))) = Some (sem (mb_chunks (snd mb)))).
+  { apply get_module_raw_in.
+    - rewrite map_map. cbn [fst]. exact Hnames.
+    - apply (in_map (fun mb => (decode (p_codepage p) (ms_name (fst mb)), sem (mb_chunks (snd mb))))) in Hin.
+      exact Hin. }
+  split; [exact Hraw|]. unfold get_module. cbn [pj_codepage pj_modules]. rewrite Hraw. reflexivity.
 Qed.
 End DirProofs.
 
@@ -565,12 +756,19 @@ Proof. intros l H. unfold rsplit2. rewrite split_last_none by exact H. reflexivi
 (* ---------- non-vacuity: a concrete project ---------- *)
 Definition ex_libid : list N :=   (* *\G{0}#2.0#0#C:\s.tlb#OLE *)
   [42; 92; 71; 123; 48; 125; 35; 50; 46; 48; 35; 48; 35; 67; 58; 92; 115; 46; 116; 108; 98; 35; 79; 76; 69].
+Definition ex_libid2 : list N :=   (* *\G{1}#1.0#0#D:\t.tlb#Foo *)
+  [42; 92; 71; 123; 49; 125; 35; 49; 46; 48; 35; 48; 35; 68; 58; 92; 116; 46; 116; 108; 98; 35; 70; 111; 111].
 Definition ex_proj : proj :=
   mkproj 1 (Some 3) 1033 1033 1252 [86; 66; 65] [100] [100; 0] [] [] 0 0 1 2 [99; 61; 49] [99; 0]
-    [ mkrs true [115; 116; 100] [115; 0; 116; 0; 100; 0] (RRegistered ex_libid);
+    [ mkrs false [] [] (RProject [42; 92; 67; 90; 58; 92; 113] [] 0 0);      (* nameless, first *)
+      mkrs true [115; 116; 100] [115; 0; 116; 0; 100; 0] (RRegistered ex_libid);
+      mkrs false [] [] (RRegistered ex_libid2);                            (* nameless, middle *)
+      mkrs false [] [] (RControl (Some ex_libid2) ex_libid None ex_libid (repeat 1 16) 0);
       mkrs true [80; 114; 106] [] (RProject [42; 92; 67; 67; 58; 92; 112] [42; 92; 67; 112] 1 2);
-      mkrs true [70; 77] [] (RControl (Some ex_libid) ex_libid (Some ([88], [88; 0])) ex_libid
-                          (repeat 0 16) 7) ]
+      mkrs true [70; 77] [] (RControl (Some ex_libid) ex_libid (Some ([88], [88; 0])) ex_libid2
+                          (repeat 0 16) 7);
+      mkrs true [] [] (RRegistered ex_libid);                              (* named, empty name *)
+      mkrs false [] [] (RControl None ex_libid2 (Some ([89], [89; 0])) ex_libid (repeat 2 16) 1) ]
     [ mkms [77; 49] [77; 0; 49; 0] [83; 49] [83; 0; 49; 0] [] [] 3 0 1 false true false;
       mkms [84; 104] [] [83; 50] [] [100] [] 0 0 2 true false true ]
     65535.
@@ -582,13 +780,13 @@ Definition ex_dir_chunks : list chunk := [Toks (map Lit (encode_dir ex_proj))].
 Definition dec_id (cp : N) (l : list N) : list N := l.
 
 Example ex_project_valid :
-  valid_projb dec_id ex_proj = true /\ known_C18_dir ex_proj = None /\
-  (exists refs, expected_refs dec_id 1252 (p_refs ex_proj) = Some refs /\ length refs = 3%nat) /\
+  valid_projb ex_proj = true /\
+  (exists refs, expected_refs dec_id 1252 (p_refs ex_proj) = Some refs /\ length refs = 8%nat) /\
   Forall valid_chunk ex_dir_chunks /\ sem ex_dir_chunks = encode_dir ex_proj /\
   p_mods ex_proj = map fst ex_bodies /\ Forall body_ok ex_bodies /\
   NoDup (map fst (project_streams dec_id ex_proj ex_dir_chunks ex_bodies)).
 Proof.
-  split; [vm_compute; reflexivity|]. split; [reflexivity|].
+  split; [vm_compute; reflexivity|].
   split; [eexists; split; vm_compute; reflexivity|].
   split.
   { apply Forall_forall. intros c Hc.
@@ -602,20 +800,46 @@ Qed.
 Example ex_project_reads :
   vba_project dec_id (project_streams dec_id ex_proj ex_dir_chunks ex_bodies)
   = Ok (mkproject 1252
-          [ mkref [115; 116; 100] [79; 76; 69] [67; 58; 92; 115; 46; 116; 108; 98];
+          [ mkref [] [] [90; 58; 92; 113];
+            mkref [115; 116; 100] [79; 76; 69] [67; 58; 92; 115; 46; 116; 108; 98];
+            mkref [] [70; 111; 111] [68; 58; 92; 116; 46; 116; 108; 98];
+            mkref [] [79; 76; 69] [68; 58; 92; 116; 46; 116; 108; 98];
             mkref [80; 114; 106] [80; 114; 106] [67; 58; 92; 112];
-            mkref [70; 77] [79; 76; 69] [67; 58; 92; 115; 46; 116; 108; 98] ]
+            mkref [70; 77] [70; 111; 111] [67; 58; 92; 115; 46; 116; 108; 98];
+            mkref [] [79; 76; 69] [67; 58; 92; 115; 46; 116; 108; 98];
+            mkref [] [79; 76; 69] [68; 58; 92; 116; 46; 116; 108; 98] ]
           [ ([77; 49], [83; 117; 98; 83; 117; 98; 83; 117; 98; 10]);
             ([84; 104], [1; 2; 3; 4; 5; 6; 7; 8; 9]) ]).
 Proof. vm_compute. reflexivity. Qed.
 
-(* ---------- the fuel of the dir-stream loops suffices on every input ---------- *)
+(* non-vacuity of [module_text_roundtrip] / [module_text_is_codepage_decoding]: a decoder that is
+   not the identity (every byte b other than '#' reads as scalar b + 256), distinct module names *)
+Definition dec_shift (cp : N) (l : list N) : list N :=
+  map (fun b => if b =? 35 then 35 else b + 256) l.
+Example ex_project_module_text :
+  NoDup (map (fun mb => dec_shift 1252 (ms_name (fst mb))) ex_bodies) /\
+  NoDup (map fst (project_streams dec_shift ex_proj ex_dir_chunks ex_bodies)) /\
+  exists pj, vba_project dec_shift (project_streams dec_shift ex_proj ex_dir_chunks ex_bodies) = Ok pj /\
+    get_module dec_shift pj [333; 305]
+    = Some [339; 373; 354; 339; 373; 354; 339; 373; 354; 266].
+Proof.
+  split; [cbn; repeat constructor; cbn; intuition discriminate|].
+  split; [cbn; repeat constructor; cbn; intuition discriminate|].
+  eexists. split; vm_compute; reflexivity.
+Qed.
+
+(* ---------- the dir-stream reader is total: on every input no panic, and the fuel of its
+   loops suffices ---------- *)
 Definition wf {A} (P : A -> Prop) (o : outcome A) : Prop :=
   match o with
   | Ok a => P a
+  | Err _ => True
+  | Panic => False
   | OutOfFuel => False
-  | _ => True
   end.
+
+Lemma wf_total : forall A (P : A -> Prop) (o : outcome A), wf P o -> o <> Panic /\ o <> OutOfFuel.
+Proof. intros A P [a|e| |] H; cbn in H; try contradiction; split; discriminate. Qed.
 
 Lemma wf_bind : forall A B (P : A -> Prop) (Q : B -> Prop) (o : outcome A) (f : A -> outcome B),
   wf P o -> (forall a, P a -> wf Q (f a)) -> wf Q (obind o f).
@@ -670,14 +894,15 @@ Qed.
 
 Ltac wf_step lem x H := eapply wf_bind; [apply lem|]; intros x H; cbn beta in *; cbn [snd] in *.
 
-Lemma ref_step_wf : forall cp refs cur s,
+Lemma ref_step_wf : forall cp refs cur complete s,
   wf (fun c => match c with
-               | Continue (_, _, s') => (length s' < length s)%nat
+               | Continue (_, _, _, s') => (length s' < length s)%nat
                | Break _ => True
-               end) (ref_step decode cp (refs, cur, s)).
+               end) (ref_step decode cp (refs, cur, complete, s)).
 Proof.
-  intros cp refs cur s. unfold ref_step.
+  intros cp refs0 cur0 complete0 s. unfold ref_step.
   wf_step rd_u16_wf x1 H1. destruct x1 as [check s1]. cbn [snd] in *.
+  destruct (start_nameless check (refs0, cur0, complete0)) as [[refs cur] complete].
   destruct (check =? 15); [exact I|].
   destruct (check =? 22).
   { wf_step read_variable_record_wf x2 H2. destruct x2 as [name s2]. cbn [snd] in *.
@@ -706,12 +931,13 @@ Proof.
   exact I.
 Qed.
 
-Lemma refs_loop_no_fuel : forall f cp refs cur s, (length s < f)%nat ->
-  refs_loop decode f cp (refs, cur, s) <> OutOfFuel.
+Lemma refs_loop_no_fuel : forall f cp refs cur complete s, (length s < f)%nat ->
+  refs_loop decode f cp (refs, cur, complete, s) <> OutOfFuel.
 Proof.
-  induction f as [|f IH]; intros cp refs cur s Hf; [lia|]. cbn [refs_loop].
-  pose proof (ref_step_wf cp refs cur s) as Hs.
-  destruct (ref_step decode cp (refs, cur, s)) as [[[[refs' cur'] s']|r]|e| |]; cbn [obind wf] in *;
+  induction f as [|f IH]; intros cp refs cur complete s Hf; [lia|]. cbn [refs_loop].
+  pose proof (ref_step_wf cp refs cur complete s) as Hs.
+  destruct (ref_step decode cp (refs, cur, complete, s)) as [[[[[refs' cur'] complete'] s']|r]|e| |];
+    cbn [obind wf] in *;
     try discriminate; [|contradiction].
   apply IH. lia.
 Qed.
@@ -760,13 +986,12 @@ Proof.
   { assert (W : wf (fun _ => True) (read_dir_information s)).
     { unfold read_dir_information.
       wf_step advance_wf s1 H1.
-      eapply (@wf_bind _ _ (fun _ => True) _ _ _). { unfold read_u16. destruct s1 as [|x [|y l]]; cbn; auto. }
-      intros compat _.
       eapply (@wf_bind _ _ (fun _ => True) _ _ _).
-      { destruct (compat =? 74); [eapply wf_weaken; [apply advance_wf|auto]|exact I]. }
+      { destruct s1 as [|x [|y l]]; try exact I.
+        destruct (_ =? 74); [eapply wf_weaken; [apply advance_wf|auto]|exact I]. }
       intros s2 _. wf_step advance_wf s3 H3.
       eapply (@wf_bind _ _ (fun _ => True) _ _ _).
-      { destruct (_ <? 8); [exact I|]. unfold read_u16. destruct (skipn 6 s3) as [|x [|y l]]; cbn; auto. }
+      { destruct (_ <? 8); [exact I|]. destruct (skipn 6 s3) as [|x [|y l]]; cbn; auto. }
       intros cp _. destruct (negb _); [exact I|].
       wf_step advance_wf s4 H4.
       wf_step check_variable_record_wf x5 H5. destruct x5 as [? s5].
@@ -779,9 +1004,9 @@ Proof.
       wf_step check_variable_record_wf x12 H12. destruct x12 as [? s12]. exact I. }
     destruct (read_dir_information s); cbn in W; try discriminate. contradiction. }
   destruct (read_dir_information s) as [[cp s1]|e| |]; cbn [obind]; try discriminate; [|congruence].
-  pose proof (refs_loop_no_fuel (S (length s1)) cp [] empty_ref s1 ltac:(lia)) as Hrefs.
+  pose proof (refs_loop_no_fuel (S (length s1)) cp [] empty_ref false s1 ltac:(lia)) as Hrefs.
   unfold references_from_stream.
-  destruct (refs_loop decode (S (length s1)) cp ([], empty_ref, s1)) as [[refs s2]|e| |]; cbn [obind];
+  destruct (refs_loop decode (S (length s1)) cp ([], empty_ref, false, s1)) as [[refs s2]|e| |]; cbn [obind];
     try discriminate; [|congruence].
   assert (Hmods : read_modules decode cp s2 <> OutOfFuel).
   { unfold read_modules.
@@ -812,6 +1037,101 @@ Proof.
   destruct (read_all_modules streams mods) as [tl|e| |]; cbn [obind]; try discriminate. congruence.
 Qed.
 
+(* --- totality: no panic either --- *)
+Lemma refs_loop_wf : forall f cp refs cur complete s, (length s < f)%nat ->
+  wf (fun _ => True) (refs_loop decode f cp (refs, cur, complete, s)).
+Proof.
+  induction f as [|f IH]; intros cp refs cur complete s Hf; [lia|]. cbn [refs_loop].
+  pose proof (ref_step_wf cp refs cur complete s) as Hs.
+  destruct (ref_step decode cp (refs, cur, complete, s)) as [[[[[refs' cur'] complete'] s']|r]|e| |];
+    cbn [obind wf] in *; auto.
+  apply IH. lia.
+Qed.
+
+Lemma modules_loop_wf : forall n cp acc s, wf (fun _ => True) (modules_loop decode n cp acc s).
+Proof.
+  induction n as [|n IH]; intros cp acc s; cbn [modules_loop]; [exact I|].
+  pose proof (read_module_wf cp s) as H.
+  destruct (read_module decode cp s) as [[m s']|e| |]; cbn [obind wf] in *; auto.
+Qed.
+
+Lemma read_dir_information_wf : forall s, wf (fun _ => True) (read_dir_information s).
+Proof.
+  intro s. unfold read_dir_information.
+  wf_step advance_wf s1 H1.
+  eapply (@wf_bind _ _ (fun _ => True) _ _ _).
+  { destruct s1 as [|x [|y l]]; try exact I.
+    destruct (_ =? 74); [eapply wf_weaken; [apply advance_wf|auto]|exact I]. }
+  intros s2 _. wf_step advance_wf s3 H3.
+  eapply (@wf_bind _ _ (fun _ => True) _ _ _).
+  { destruct (_ <? 8); [exact I|]. destruct (skipn 6 s3) as [|x [|y l]]; cbn; auto. }
+  intros cp _. destruct (negb _); [exact I|].
+  wf_step advance_wf s4 H4.
+  wf_step check_variable_record_wf x5 H5. destruct x5 as [? s5].
+  wf_step check_variable_record_wf x6 H6. destruct x6 as [? s6].
+  wf_step check_variable_record_wf x7 H7. destruct x7 as [? s7].
+  wf_step check_variable_record_wf x8 H8. destruct x8 as [? s8].
+  wf_step check_variable_record_wf x9 H9. destruct x9 as [? s9].
+  wf_step advance_wf s10 H10.
+  wf_step check_variable_record_wf x11 H11. destruct x11 as [? s11].
+  wf_step check_variable_record_wf x12 H12. destruct x12 as [? s12]. exact I.
+Qed.
+
+Lemma parse_dir_wf : forall s, wf (fun _ => True) (parse_dir decode s).
+Proof.
+  intro s. unfold parse_dir.
+  eapply wf_bind; [apply read_dir_information_wf|]. intros [cp s1] _.
+  eapply wf_bind; [apply (refs_loop_wf (S (length s1)) cp [] empty_ref false s1); lia|].
+  intros [refs s2] _.
+  eapply (@wf_bind _ _ (fun _ => True) _ _ _).
+  { unfold read_modules. wf_step advance_wf s3 H3. wf_step rd_u16_wf x4 H4. destruct x4 as [n s4].
+    wf_step advance_wf s5 H5. apply modules_loop_wf. }
+  intros [mods s3] _. exact I.
+Qed.
+
+Lemma get_stream_wf : forall streams n, wf (fun _ => True) (get_stream streams n).
+Proof.
+  intros streams n. induction streams as [|[a b] l IHl]; cbn [get_stream]; [exact I|].
+  destruct (list_eqb a n); [exact I|exact IHl].
+Qed.
+
+Lemma decompress_wf : forall s, wf (fun _ => True) (decompress s).
+Proof.
+  intro s. destruct (decompress_total s) as (H1 & H2 & _).
+  destruct (decompress s); cbn; auto.
+Qed.
+
+Lemma read_all_modules_wf : forall streams mods, wf (fun _ => True) (read_all_modules streams mods).
+Proof.
+  intros streams. induction mods as [|m mods IH]; cbn [read_all_modules]; [exact I|].
+  eapply wf_bind; [apply get_stream_wf|]. intros s _.
+  eapply (@wf_bind _ _ (fun _ => True) _ _ _).
+  { destruct (module_content_total s (m_offset m)) as [H1 H2].
+    destruct (module_content s (m_offset m)); cbn; auto. }
+  intros c _. eapply wf_bind; [exact IH|]. intros tl _. exact I.
+Qed.
+
+Lemma vba_project_wf : forall streams, wf (fun _ => True) (vba_project decode streams).
+Proof.
+  intro streams. unfold vba_project.
+  eapply wf_bind; [apply get_stream_wf|]. intros s _.
+  eapply wf_bind; [apply decompress_wf|]. intros d _.
+  eapply wf_bind; [apply parse_dir_wf|]. intros [[cp refs] mods] _.
+  eapply wf_bind; [apply read_all_modules_wf|]. intros ms _. exact I.
+Qed.
+
+(* EVERY dir stream (truncated, corrupt lengths, unknown records, …): the three passes of
+   vba.rs answer Ok or an error — no panic, and the fuel of the model's loops is enough *)
+Theorem parse_dir_total : forall s, parse_dir decode s <> Panic /\ parse_dir decode s <> OutOfFuel.
+Proof. intro s. apply (wf_total _ _ _ (parse_dir_wf s)). Qed.
+
+(* EVERY container (any streams: missing dir, malformed compression, corrupt dir records, text
+   offsets beyond their stream, malformed module containers): VbaProject::from_cfb answers Ok or
+   an error *)
+Theorem vba_project_total : forall streams,
+  vba_project decode streams <> Panic /\ vba_project decode streams <> OutOfFuel.
+Proof. intro streams. apply (wf_total _ _ _ (vba_project_wf streams)). Qed.
+
 Theorem vba_project_no_fuel : forall streams, vba_project decode streams <> OutOfFuel.
 Proof.
   intro streams. unfold vba_project.
@@ -826,25 +1146,47 @@ Proof.
 Qed.
 End FuelDir.
 
-(* ---------- known class 1: a REFERENCE without its (optional) NameRecord ---------- *)
-Definition ex_libid2 : list N :=   (* *\G{1}#1.0#0#D:\t.tlb#Foo *)
-  [42; 92; 71; 123; 49; 125; 35; 49; 46; 48; 35; 48; 35; 68; 58; 92; 116; 46; 116; 108; 98; 35; 70; 111; 111].
+(* the three totality statements of the project reader together *)
+Theorem dir_total : forall (decode : N -> list N -> list N),
+  (forall s : list N, parse_dir decode s <> Panic /\ parse_dir decode s <> OutOfFuel) /\
+  (forall streams : list (list N * list N),
+     vba_project decode streams <> Panic /\ vba_project decode streams <> OutOfFuel) /\
+  (forall (s : list N) (off : N),
+     module_content s off <> Panic /\ module_content s off <> OutOfFuel).
+Proof.
+  intro decode. split; [exact (parse_dir_total decode)|]. split; [exact (vba_project_total decode)|].
+  exact module_content_total.
+Qed.
+
+(* inputs that made the code panic before the hardening: now errors (classes of Ovba.v / E_IO) *)
+Example ex_malformed_outcomes :
+  decompress [] = Err E_TRUNCATED /\                          (* was s[0] *)
+  decompress [1; 5] = Err E_TRUNCATED /\                      (* was read_u16 on one byte *)
+  decompress [1; 0; 0] = Err E_CHUNK_SIGNATURE /\             (* was assert_eq! *)
+  decompress [1; 255; 63; 1; 2] = Err E_TRUNCATED /\          (* raw chunk shorter than 4096 *)
+  decompress [1; 2; 176; 1; 0; 0] = Err E_COPY_OFFSET /\      (* copy token at position 0 *)
+  decompress [1; 3; 176; 2; 65; 255; 15] = Err E_CHUNK_OUTPUT /\   (* 1 + 4098 bytes in one chunk *)
+  n_chunks (ovba_encode example_chunks) = 5%nat /\
+  parse_dir dec_id [1; 2; 3] = Err E_IO /\                    (* was &stream[10..] *)
+  module_content [1; 2] 5 = Err E_TRUNCATED /\                (* was &s[text_offset..] *)
+  vba_project dec_id [(DIR_NAME, [1; 2; 176; 0; 7; 8])] = Err E_IO.
+Proof. repeat split; vm_compute; reflexivity. Qed.
+
+(* ---------- the former known class 1: a REFERENCE without its (optional) NameRecord ----------
+   Before the fix: commit the loop of Reference::from_stream listed ONE reference for this dir
+   stream (name std, description Foo, path C:\s.tlb).  Kept as a regression example. *)
 Definition ex_proj_nameless : proj :=
   mkproj 1 None 1033 1033 1252 [86; 66; 65] [] [] [] [] 0 0 1 2 [] []
     [ mkrs true [115; 116; 100] [115; 0; 116; 0; 100; 0] (RRegistered ex_libid);
       mkrs false [] [] (RRegistered ex_libid2) ]
     [] 0.
 
-Theorem refuted_nameless_reference :
-  exists p refs,
-    valid_projb dec_id p = true /\ known_C18_dir p = Some 1 /\
-    expected_refs dec_id (p_codepage p) (p_refs p) = Some refs /\
-    parse_dir dec_id (encode_dir p)
-    <> Ok (p_codepage p, refs, map (expected_mod dec_id (p_codepage p)) (p_mods p)) /\
-    (* what the code returns instead: one reference, "std", carrying the second libid's text *)
-    parse_dir dec_id (encode_dir p)
-    = Ok (1252, [mkref [115; 116; 100] [70; 111; 111] [67; 58; 92; 115; 46; 116; 108; 98]], []).
-Proof.
-  exists ex_proj_nameless. eexists. split; [vm_compute; reflexivity|]. split; [reflexivity|].
-  split; [vm_compute; reflexivity|]. split; [vm_compute; discriminate|]. vm_compute. reflexivity.
-Qed.
+Example nameless_reference_reads :
+  valid_projb ex_proj_nameless = true /\
+  expected_refs dec_id 1252 (p_refs ex_proj_nameless)
+  = Some [ mkref [115; 116; 100] [79; 76; 69] [67; 58; 92; 115; 46; 116; 108; 98];
+           mkref [] [70; 111; 111] [68; 58; 92; 116; 46; 116; 108; 98] ] /\
+  parse_dir dec_id (encode_dir ex_proj_nameless)
+  = Ok (1252, [ mkref [115; 116; 100] [79; 76; 69] [67; 58; 92; 115; 46; 116; 108; 98];
+                mkref [] [70; 111; 111] [68; 58; 92; 116; 46; 116; 108; 98] ], []).
+Proof. repeat split; vm_compute; reflexivity. Qed.
